@@ -138,9 +138,19 @@ def run(tier, seed, replay_path=None):
             usepdg = rng.random() < 0.3
             pool = pdg if usepdg else evt
             ks = rng.sample(pool, rng.randint(1, 5))
-            if rng.random() < 0.3:
+            r = rng.random()
+            if r < 0.3:
                 ks.append(rng.choice(unk))
-            fs = sorted([k, rng.randint(1, 5)] for k in set(ks))
+            elif r < 0.65:
+                # particles together with their antiparticles (unequal multiplicities), self-conjugate ones:
+                # a name set closed under conjugation
+                conj_of = (lambda n: t["evt2pdg"].get(t["evt_conj"].get(t["pdg2evt"].get(n)) or "", None)) if usepdg \
+                    else (lambda n: t["evt_conj"].get(n))
+                ks = [k for k in ks if conj_of(k)]
+                ks += [conj_of(k) for k in ks]
+            fs = sorted([k, rng.randint(1, 5)] for k in set(ks) if k)
+            if not fs:
+                fs = [[rng.choice(pool), 2]]
             kind = rng.choice(["fs", "mode"])
             args.append((len(cases) + len(args), kind, usepdg, fs, seed * 3 + i))
         for i in range(3000 if deep else 300):
